@@ -84,17 +84,18 @@ class Resolver:
     RX = re.compile(r'^<(.+) as (?:crate::|::ts_rs::|ts_rs::|\$crate::)?TS>::(\w+)(?:::<(.*)>)?$')
     DUMMY = re.compile(r'^<(\w+)<.*> as (?:::ts_rs::|ts_rs::)?TS>::decl::(\w+)$')
 
-    def __init__(self, abstract, custom=None, n_value=3):
+    def __init__(self, abstract, custom=None, n_value=3, sym=None):
         self.abstract = set(abstract)          # type parameter names left abstract
         self.custom = custom or {}             # {(param, method): fn(machine) -> value}
         self.n_value = n_value
+        self.sym = sym or {}                   # {'sym_a': char list} -- values of the corpus' symbolic string expressions
         self.log = []
         self.current_item = None               # corpus item whose decl() is executing (bare dummy names refer to it)
 
     def install(self, m):
         m.stubs.append((self.RX, self.method))
-        m.stubs.append((re.compile(r'^<impl TypeVisitor as TypeVisitor>::visit::<'), self.visit))
-        m.stubs.append((re.compile(r'^sym_(a|b)$'), lambda mm, c, a: RStr([Hole(c)])))
+        m.stubs.append((re.compile(r'^<impl (::ts_rs::|ts_rs::|crate::)?TypeVisitor as (::ts_rs::|ts_rs::|crate::)?TypeVisitor>::visit::<'), self.visit))
+        m.stubs.append((re.compile(r'^sym_(a|b)$'), lambda mm, c, a: RStr(list(self.sym[c])) if c in self.sym else RStr([Hole(c)])))
         m.type_rewrites = [(re.compile(r'\$crate::'), 'crate::')]
         prev = m.const_hook
 
